@@ -7,7 +7,7 @@ PROP = dict(
     corr=["Model/SvcCorr.vo", "Model/C09Corr.vo", "Model/C10Scid.vo"],
     design_ref="DESIGN.md §6 C10",
     technique="Coq invariant (distinct active swaps have distinct normalised channel ids) proved by induction over all sequences of service operations, using a step-level frame lemma obtained from the generic engine rule; vm_compute correspondence of lockSwap/request handling against the real SwapService; monitor on observed nodes incl. one schedule-controlled interleaving; plus lightning.Scid.ClnStyle / LndStyle compared with the separator normalisation lockSwap relies on; plus, on the real lnd / clightning adapters: which spellings of a channel id SpendableMsat / ReceivableMsat resolve to the node's channel (psh scidres, Model/C10ScidRes.v; theorem c10_resolved_spelling_of_busy_channel_refused)",
-    level_text="Machine-checked for every sequence of peer messages and RPC initiations (sequential semantics), every environment and table set: at most one active swap per channel in either spelling; a request for a busy channel is answered with cancel. The statement over ALL interleavings is kept in full, refuted (lock taken before the request is attached) and recorded as a known finding together with the request-before-recovery window; the spelling defect was repaired (fix: commit).",
+    level_text="Machine-checked for every sequence of peer messages and RPC initiations (sequential semantics), every environment and table set: at most one active swap per channel in either spelling; a request for a busy channel is answered with cancel. The statement over ALL interleavings is kept in full, refuted (lock taken before the request is attached) and recorded as a known finding together with the request-before-recovery window; the spelling defect was repaired (fix: commit). Adapter side: any spelling of an active swap's channel that the adapters' look-up (equal after the separator normalisation; tied to the real lnd / clightning SpendableMsat / ReceivableMsat on every run) resolves to that channel is refused by lockSwap.",
     level_note="Trusted: Coq kernel, model of service.go tied by the svc correspondence, fakes. Partial: true concurrency is represented only by the two-caller lock interleaving (Coq witness + one schedule-controlled run on the real code); recovery of several stored swaps runs concurrently in the code and is not modelled.",
     assumptions=["handlers run to completion one after the other, except for the explicitly modelled lock/attach window"],
 )
